@@ -549,7 +549,8 @@ def r6_constant_split(ctx, sym):
     mod = cm.mod
     fa = mod.func('CaitNode.find_all')
     ctx.analysed_function(mod, fa)
-    ctx.analysed_function(mod, mod.func('CaitNode._handle_visit_constant'))
+    if mod.has_func('CaitNode._handle_visit_constant'):
+        ctx.analysed_function(mod, mod.func('CaitNode._handle_visit_constant'))
     values = [True, False, 0, 1, -3, 2.5, 0.0, 'a', '', None, b'x', 1j, ...]
     consts = [cm.ast('Constant', value=v) for v in values]
     names = [cm.ast('Name', id='v%d' % i) for i in range(len(values))]
